@@ -36,6 +36,7 @@ class Bare(V):
     def __init__(self, kind="data", origin=None):
         self.kind = kind
         self.origin = origin  # 'impl' for results of X._implementation(...)
+        self.raw = ()  # (numpy function, position, parameter): operands handed to _implementation as they came in
 
     def __repr__(self):
         return f"Bare({self.kind})"
@@ -141,6 +142,7 @@ class UnitInterp:
         self.helpers = helpers
         self.max_depth = max_depth
         self.unit_const_names = set()
+        self.hazards = []  # (node, raw operands): an _implementation result on unstripped operands combined with a unit
         for local, q in mod.imports.items():
             if q in ("unyt.delta_degC", "unyt.unit_symbols.delta_degC", "unyt.delta_degF", "unyt.unit_symbols.delta_degF"):
                 self.unit_const_names.add(local)
@@ -561,6 +563,9 @@ class UnitInterp:
 
         ma, mb = mono_of(a), mono_of(b)
         m = ma * mb if mul else ma / mb
+        for x, y in ((a, b), (b, a)):
+            if isinstance(x, Bare) and x.raw and isinstance(y, Un):
+                self.hazards.append((node, x.raw, y.mono))
         unitlike = lambda x: isinstance(x, Un)
         datalike = lambda x: isinstance(x, (Bare, Qn, Par))
         if unitlike(a) and unitlike(b):
@@ -664,7 +669,15 @@ class UnitInterp:
             for k in e.keywords:
                 self.ev(fn, k.value, st, depth)
             st.impl_calls.append((e, list(st.groups)))
-            return Bare("data", "impl")
+            out = Bare("data", "impl")
+            raw = []
+            for i, a in enumerate(e.args):
+                star = isinstance(a, ast.Starred)
+                n = a.value if star else a
+                if isinstance(n, ast.Name) and isinstance(st.env.get(n.id), Par):
+                    raw.append((norm(f.value), "*" if star else i, st.env[n.id].expr, n.id))
+            out.raw = tuple(raw)
+            return out
         if ftxt in STRIP:
             v = self.ev(fn, e.args[0], st, depth) if e.args else Bare()
             if isinstance(v, Par):
